@@ -70,10 +70,15 @@ def vinproc(bins, args):
 
 
 def read_records(path):
+    """Records stay raw JSON lines (hundreds of thousands in the thorough tier): parsed only where a field is needed."""
     if not os.path.exists(path):
         return []
     with open(path) as f:
-        return [json.loads(l) for l in f]
+        return [l.rstrip("\n") for l in f if l.strip()]
+
+
+def as_dict(r):
+    return json.loads(r) if isinstance(r, str) else r
 
 
 def nontrivial(pid, r):
@@ -413,7 +418,7 @@ def run(pid, tier):
         chk.cov["evaluations"] = evals
         chk.cov["enumerated_configurations"] = len(cases)
         chk.cov["records_from_enumeration"] = n_enum
-        chk.cov["distinct_nontrivial"] = sum(1 for r in records if nontrivial(pid, r))
+        chk.cov["distinct_nontrivial"] = sum(1 for r in records if nontrivial(pid, as_dict(r)))
         chk.cov["exhaustive"] = True
         chk.cov["rule"] = ("every configuration of scope %s (TLC-enumerated) under naming schemes with prefix-sharing "
                            "names and every declaration order, plus seeded random large configurations; records are "
@@ -431,9 +436,14 @@ def run(pid, tier):
         for rec, why in big_fails:
             if wanted is None or why in wanted:
                 chk.violation(why, "%s [graph of %d nodes]" % (why, len(rec["adj"])), {"ev": "dag_big", "nodes": len(rec["adj"]), "out": rec["out"] if not rec["out"]["ok"] else "(groups omitted)"})
+        nsamp = 0
         for r in records:
-            if nontrivial(pid, r):
-                chk.sample(trim(r), limit=3)
+            if nsamp >= 3:
+                break
+            d = as_dict(r)
+            if nontrivial(pid, d):
+                chk.sample(trim(d), limit=3)
+                nsamp += 1
         chk.assumptions += [
             "the in-process wrappers in src/verif.rs call core::Index::new / app::analyze::analyze / Dag unchanged",
             "byte-order sortedness of concrete strings is computed by the harness and asserted by the judge",
